@@ -1,0 +1,38 @@
+//go:build verif
+
+package routetab
+
+import (
+	"github.com/gauss-project/aurorafs/pkg/boson"
+	"github.com/gauss-project/aurorafs/pkg/storage"
+)
+
+// Verification hooks (add-only, compiled only with -tags verif).
+
+// VerifNewTable exports the unexported route table constructor.
+func VerifNewTable(self boson.Address, store storage.StateStorer) *Table {
+	return newRouteTable(self, store)
+}
+
+// VerifUpdateUsedTime exports Table.updateUsedTime (the "route was used" touch
+// that the Service performs when it picks a next hop).
+func (t *Table) VerifUpdateUsedTime(target, neighbor boson.Address) {
+	t.updateUsedTime(target, neighbor)
+}
+
+// VerifRoutes returns a copy of the in-memory route list of one target.
+func (t *Table) VerifRoutes(target boson.Address) []TargetRoute {
+	t.mu.RLock()
+	defer t.mu.RUnlock()
+	routes := t.routes[getTargetKey(target)]
+	out := make([]TargetRoute, len(routes))
+	copy(out, routes)
+	return out
+}
+
+// VerifTargets returns the number of targets that have a (possibly empty) route list.
+func (t *Table) VerifTargets() int {
+	t.mu.RLock()
+	defer t.mu.RUnlock()
+	return len(t.routes)
+}
